@@ -14,7 +14,8 @@
 //!
 //! Monitors (ghost ledger on the implementation trace, independent of the Lean model): versions
 //! never decrease, same version ⇒ same content (whole history), batch atomicity, read = last
-//! accepted write, reopen keeps contents and version cache, memory ≡ redb, cloud read-your-writes,
+//! accepted write, reopen keeps contents and version cache, memory ≡ redb (every divergence, batches
+//! repeating a key included, is a violation since the F8 fix), cloud read-your-writes,
 //! cloud local store changes only at commit and by exactly the mutations `prepare` reported.
 use crate::common::*;
 use lightning_signer::persist::Error;
@@ -407,9 +408,8 @@ fn run_pair(ops: &[String]) -> PairOut {
         }
         if !diverged && (om != or || dm != dr) {
             diverged = true;
-            let kind = if batch_repeats_key(&op) { "c16-mem-redb-differ-batch-repeats-key" } else { "c16-mem-redb-differ" };
             co.violations.push(Violation {
-                kind: kind.into(),
+                kind: "c16-mem-redb-differ".into(),
                 desc: format!("`{}`: memory -> {} {} ; redb -> {} {}", line, om, show_dump(&dm), or, show_dump(&dr)),
                 at: i,
             });
@@ -613,7 +613,7 @@ impl Group for C16Pair {
     fn corpus(&self) -> Vec<Vec<String>> {
         let c = |s: &str| s.split('|').map(|x| x.to_string()).collect::<Vec<_>>();
         vec![
-            // F8 witness (DESIGN §4): batch repeating a key
+            // F8 witness (DESIGN §4, fixed in /repo b41c142): batch repeating a key — both stores refuse it now
             c("putv 1 1 aa|batch 1 2 bb 1 1 aa|get 1|prefix all"),
             c("putv 1 1 aa|batch 1 2 bb 1 1 aa 1 2 aa|get 1|reopen|get 1"),
             // the repository's own unit-test scenarios
@@ -675,8 +675,29 @@ fn run_cloud(ops: &[String]) -> (CaseOut, String) {
     let (mut accepted, mut refused) = (false, false);
     for (i, line) in ops.iter().enumerate() {
         let op = parse_op(line);
+        // the store's own view of the versions inside the transaction (get_version is side-effect free there)
+        let is_write_op = matches!(op, Op::Put(..) | Op::PutV(..) | Op::Batch(..) | Op::Del(..));
+        let view = |c: &CloudKVVStore<MemoryKVVStore>| -> Vec<Option<u64>> {
+            (1..=3u64).map(|k| apply(c, &Op::GetVer(k), "").ok().and_then(|s| s.strip_prefix("ver ").and_then(|v| v.parse().ok()))).collect()
+        };
+        let view_before = if txn == Txn::Open && is_write_op { Some(view(&cloud)) } else { None };
         let r = apply(&cloud, &op, "");
         let out = match &r { Ok(s) => s.clone(), Err(()) => "panic".to_string() };
+        if let (Some(before), true) = (&view_before, out != "panic") {
+            let after = view(&cloud);
+            for (j, (b, a)) in before.iter().zip(after.iter()).enumerate() {
+                if let (Some(b), Some(a)) = (b, a) {
+                    if a < b {
+                        co.violations.push(Violation {
+                            kind: "c16-cloud-pending-version-lowered".into(),
+                            desc: format!("cloud: `{}` ({}) lowered the version the store reports for key {} inside the transaction: get_version {} -> {}",
+                                line, out, key_name(j as u64 + 1), b, a),
+                            at: i,
+                        });
+                    }
+                }
+            }
+        }
         let dump = full_dump(&cloud);
         let cur = as_map(&dump);
         let mut push = |kind: &str, desc: String| co.violations.push(Violation { kind: kind.into(), desc: format!("cloud: {}", desc), at: i });
@@ -709,15 +730,27 @@ fn run_cloud(ops: &[String]) -> (CaseOut, String) {
                 Op::Del(k) => vec![(*k, (prev.get(k).map(|r| r.0.wrapping_add(1)).unwrap_or(0), vec![]), out == "ok")],
                 Op::PutV(k, v, x) => vec![(*k, (*v, x.clone()), out == "ok")],
                 Op::Batch(es) => {
-                    // which prefix was accepted is not reported by the API when the batch fails:
-                    // derive it from the acceptance rule against the committed (local) store
-                    let mut v = Vec::new();
-                    for (k, r) in es {
-                        let ok = match prev.get(k) { None => true, Some((v0, x0)) => r.0 > *v0 || (r.0 == *v0 && r.1 == *x0) };
-                        if !ok { break; }
-                        v.push((*k, r.clone(), out != "panic"));
+                    if out == "ok" {
+                        es.iter().map(|(k, r)| (*k, r.clone(), true)).collect()
+                    } else {
+                        // the API does not report which prefix of a failing batch was logged: resynchronise the
+                        // ghost from the store's own answers for the keys of the batch (no RYW claim for this op)
+                        if txn == Txn::Open && out == "mismatch" {
+                            for (k, _) in es {
+                                if let Ok(s) = apply(&cloud, &Op::Get(*k), "") {
+                                    match s.strip_prefix("got ").filter(|x| *x != "none") {
+                                        Some(recs) => {
+                                            let p: Vec<&str> = recs.split(':').collect();
+                                            let rec: Rec = (p[0].parse().unwrap(), unhex(p[1]));
+                                            if prev.get(k) != Some(&rec) { pending.insert(*k, rec); reported = None; } else { pending.remove(k); }
+                                        }
+                                        None => { pending.remove(k); }
+                                    }
+                                }
+                            }
+                        }
+                        vec![]
                     }
-                    v
                 }
                 _ => vec![],
             };
